@@ -246,6 +246,73 @@ fn store_compare(args: &Args, rep: &mut Report, rng: &mut Rng, rounds: usize) {
         db.shutdown().await;
     });
     let _ = std::fs::remove_dir_all(&dir);
+    aged_store_compare(args, rep, rng);
+}
+
+/// The same comparison for streams whose current version has to be found in sealed segments: three streams are
+/// written across two or more 128 KiB segments, then a filler stream rolls the segment over once more, so none of
+/// them has an event in the live segment when the probes arrive.
+fn aged_store_compare(args: &Args, rep: &mut Report, rng: &mut Rng) {
+    let rt = tokio::runtime::Builder::new_current_thread().enable_all().build().unwrap();
+    let dir = args.work.join(format!("c25-aged-{}", args.shard));
+    let _ = std::fs::remove_dir_all(&dir);
+    let db = DatabaseBuilder::new()
+        .segment_size_bytes(128 * 1024)
+        .total_buckets(1)
+        .bucket_ids_from_range(0..1)
+        .writer_threads(1)
+        .reader_threads(2)
+        .sync_interval(std::time::Duration::from_millis(1))
+        .min_sync_bytes(1)
+        .compression(false)
+        .open(&dir)
+        .expect("open db");
+    let pk = Uuid::from_u128((rng.next_u64() as u128) << 64 | rng.next_u64() as u128);
+    let hash = uuid_to_partition_hash(pk);
+    let pid = hash % 4;
+    let mk = |name: &str, sv: ExpectedVersion, size: usize| NewEvent {
+        event_id: uuid_v7_with_partition_hash(hash),
+        stream_id: StreamId::new(name.to_string()).unwrap(),
+        stream_version: sv,
+        event_name: "E".into(),
+        timestamp: 1,
+        metadata: vec![],
+        payload: (0..size).map(|k| (k as u64).wrapping_mul(0x9E37_79B9_7F4A_7C15).rotate_left((k % 61) as u32) as u8 ^ (k >> 3) as u8).collect(),
+    };
+    rt.block_on(async {
+        let per_stream = 24u64;
+        for i in 0..(3 * per_stream) {
+            let t = Transaction::new(pk, pid, smallvec![mk(&format!("aged-{}", i % 3), ExpectedVersion::Any, 3500)]).unwrap();
+            if db.append_events(t).await.is_err() { rep.inconclusive("C25 aged fill failed"); return; }
+        }
+        for _ in 0..45 {
+            let t = Transaction::new(pk, pid, smallvec![mk("filler", ExpectedVersion::Any, 3500)]).unwrap();
+            if db.append_events(t).await.is_err() { rep.inconclusive("C25 aged fill failed"); return; }
+        }
+        let cur = per_stream - 1;
+        let accepting = [ExpectedVersion::Exact(cur), ExpectedVersion::Exists, ExpectedVersion::Any];
+        for (i, last) in accepting.iter().enumerate() {
+            let name = format!("aged-{i}");
+            let mut probes = vec![ExpectedVersion::Exact(cur - 1), ExpectedVersion::Exact(cur + 1), ExpectedVersion::Exact(cur / 2), ExpectedVersion::Exact(0), ExpectedVersion::Empty, ExpectedVersion::Exact(u64::MAX)];
+            probes.push(*last);
+            for e in probes {
+                let accepted = db.append_events(Transaction::new(pk, pid, smallvec![mk(&name, e, 3)]).unwrap()).await.is_ok();
+                let Ok(algebra) = std::panic::catch_unwind(|| e.is_satisfied_by(CurrentVersion::Current(cur))) else { continue };
+                rep.evaluations += 1;
+                rep.count("store_probes_on_streams_living_in_sealed_segments_only", 1);
+                rep.nontrivial(&("aged-store", ev_name(e)));
+                if accepted != algebra {
+                    rep.violation(
+                        "C25:store-vs-algebra:stream-version:stream-in-sealed-segments-only",
+                        format!("stream {name} has versions 0..={cur} in sealed segments and none in the live one: expected {e:?}: store accepted={accepted}, is_satisfied_by(Current({cur}))={algebra}"),
+                        json!({"expected": ev_name(e), "current": cur, "aged": true}),
+                    );
+                }
+            }
+        }
+        db.shutdown().await;
+    });
+    let _ = std::fs::remove_dir_all(&dir);
 }
 
 pub fn run(args: &Args, rep: &mut Report) {
